@@ -20,6 +20,10 @@ MODELS = [
      "module": "MC_Sync", "cfg": "MC_Sync_thorough.cfg", "props": ["C13"], "tiers": ["thorough"], "workers": 16, "timeout": 3000, "heap": "16g"},
     {"name": "MC_BigNat (base 7, all pairs 0..120: add, sub, mul, compare, divmod, base conversion vs native arithmetic)",
      "module": "MC_BigNat", "cfg": "MC_BigNat.cfg", "props": ["C11", "C16"], "tiers": ["quick", "thorough"], "workers": 8, "timeout": 900},
+    {"name": "MC_Header (retarget interval scaled to 4 blocks, all honest chains of <= 7 headers from 3 starting difficulties, 5 timestamp choices, 3 networks: limit, canonical bits, clamp, walk-back = declarative, median monotone)",
+     "module": "MC_Header", "cfg": "MC_Header_quick.cfg", "props": ["C11"], "tiers": ["quick"], "workers": 8, "timeout": 900},
+    {"name": "MC_Header (retarget interval scaled to 4 blocks, all honest chains of <= 9 headers (two retargets) from 3 starting difficulties, 5 timestamp choices, 3 networks)",
+     "module": "MC_Header", "cfg": "MC_Header_thorough.cfg", "props": ["C11"], "tiers": ["thorough"], "workers": 16, "timeout": 7000, "heap": "16g"},
     {"name": "MC_Watchdog (4 providers, quorum 2, band +-2, grid of 6 results, all rounds from all states)",
      "module": "MC_Watchdog", "cfg": "MC_Watchdog.cfg", "props": ["C17"], "tiers": ["quick", "thorough"], "workers": 8, "timeout": 600},
     {"name": "MC_Tree (<= 4 blocks, diffs {1,2}, thr {1,2}, mainnet + regtest with depth bound 2)",
